@@ -1,6 +1,7 @@
 package main
 
 import (
+	"regexp"
 	"bytes"
 	"fmt"
 	"sort"
@@ -277,23 +278,11 @@ type Violation struct {
 	Detail string   `json:"detail"`
 }
 
+var hexRun = regexp.MustCompile(`0x[0-9a-fA-F]+|\\b[0-9a-f]{16,}\\b`)
+
 func normErr(e string) string {
 	// strip concrete values so that the message is a class
-	var sb strings.Builder
-	hexrun := 0
-	for _, c := range e {
-		isHex := (c >= '0' && c <= '9') || (c >= 'a' && c <= 'f')
-		if isHex {
-			hexrun++
-			if hexrun > 3 {
-				continue
-			}
-		} else {
-			hexrun = 0
-		}
-		sb.WriteRune(c)
-	}
-	s := sb.String()
+	s := hexRun.ReplaceAllString(e, "0x..")
 	if len(s) > 90 {
 		s = s[:90]
 	}
@@ -357,8 +346,21 @@ func cause(t *TypeDef, start []string, steps []Step, seed int64, kind, field str
 		}
 		return false
 	}
+	// a decode/encode failure rarely depends on what happened earlier on the path: minimise on the shortest
+	// path that still shows it (start, encode, [decode]) so that unrelated steps do not leak into the cause
+	full := steps
+	last := steps[len(steps)-1]
+	switch last.Op {
+	case "dec":
+		steps = []Step{steps[0], {Op: "enc", Type: t.Name, Codec: last.Codec}, last}
+	case "enc":
+		steps = []Step{steps[0], last}
+	}
 	if !fails(cur) {
-		return "unreproducible"
+		steps = full
+		if !fails(cur) {
+			return "unreproducible"
+		}
 	}
 	for i, f := range t.Fields {
 		if cur[i] == base[f.Name] {
